@@ -43,6 +43,11 @@ struct CommitBatch {
 	// batch leaves the queue, not before: the committer keeps its flow-control
 	// permit until then, which is what bounds the queue.
 	failure: Mutex<Option<Error>>,
+	// The committer's flow-control permit. It travels with the batch and is
+	// released when the batch leaves the queue - not when the committer's future
+	// ends: a `commit()` dropped while it waits for publication (a timeout around
+	// it) leaves its batch queued, and enough of those overflowed the queue.
+	permit: Mutex<Option<tokio::sync::OwnedSemaphorePermit>>,
 }
 
 impl CommitBatch {
@@ -54,6 +59,7 @@ impl CommitBatch {
 			applied: AtomicBool::new(false),
 			complete_tx: Mutex::new(Some(tx)),
 			failure: Mutex::new(None),
+			permit: Mutex::new(None),
 		});
 		(commit, rx)
 	}
@@ -80,6 +86,14 @@ impl CommitBatch {
 
 	fn take_failure(&self) -> Option<Error> {
 		self.failure.lock().take()
+	}
+
+	fn hold_permit(&self, permit: tokio::sync::OwnedSemaphorePermit) {
+		*self.permit.lock() = Some(permit);
+	}
+
+	fn release_permit(&self) {
+		self.permit.lock().take();
 	}
 
 	fn complete(&self, result: Result<()>) {
@@ -311,9 +325,13 @@ impl CommitPipeline {
 		self.write_stall.check().await?;
 
 		// Acquire permit for flow control
-		let _permit = self.commit_sem.acquire().await.map_err(|_| Error::PipelineStall)?;
+		let permit = Arc::clone(&self.commit_sem)
+			.acquire_owned()
+			.await
+			.map_err(|_| Error::PipelineStall)?;
 
 		let (commit_batch, complete_rx) = CommitBatch::new(batch.count());
+		commit_batch.hold_permit(permit);
 
 		#[cfg(feature = "verif")]
 		crate::verif::point("commit.before_lock");
@@ -520,6 +538,8 @@ impl CommitPipeline {
 
 					#[cfg(feature = "verif")]
 					crate::verif::point("publish.after_visible");
+					// The batch has left the queue: its slot and its permit are free
+					batch.release_permit();
 					// Complete this batch (with its own error if its WAL write or
 					// apply had failed)
 					match batch.take_failure() {
